@@ -525,8 +525,8 @@ class IntConverter(Converter):
             throw(ValueError, "'min' argument should be greater or equal to %d because of size=%d and unsigned=%s. "
                               "Got: %d" % (lowest, size, min_val, unsigned))
 
-        converter.min_val = min_val or lowest
-        converter.max_val = max_val or highest
+        converter.min_val = min_val if min_val is not None else lowest
+        converter.max_val = max_val if max_val is not None else highest
         converter.size = size
         converter.unsigned = unsigned
     def validate(converter, val, obj=None):
